@@ -396,29 +396,45 @@ def r6_static_wiring(ctx, rule="C03.R6") -> None:
         "load_function": ("0", "func.out(0)"),
         "load": ("0", None),
     }
+    from ..rulekit import unold
+    from ..tmpl import T, tmatch
     for mname, (want_off, want_src) in table.items():
         m = df.methods.get(mname)
         if m is None:
             ctx.broken(f"anchor vanished: DfBase.{mname}")
-        links = [c for c in calls_in(m, "add_link") if len(c.args) == 2]
-        ok = False
+        # path summaries (locals substituted): on every completing path one static edge, from output 0 of the static node to the static
+        # input port of the node that was just created for the operation
+        sp = m.args.args[1].arg
+        ps = [p for p in ctx.paths(f"hugr.build.dfg.DfBase.{mname}") if p.kind != "raise"]
+        ok = bool(ps)
         found = ""
-        for c in links:
-            src, dst = c.args
-            found = u(c)
-            if isinstance(dst, ast.Call) and call_name(dst) == "inp" and dst.args:
-                off = dst.args[0]
+        for p in ps:
+            links = p.find_effect("self.hugr.add_link(E_src, E_dst)")
+            good = False
+            for _, n, e in links:
+                found = unold(n)
+                d = tmatch(ast.parse(unold(e["E_dst"]), mode="eval").body, T("E_node.inp(E_off)"))
+                if d is None:
+                    continue
+                src = unold(e["E_src"])
                 if want_off == "0":
-                    good_off = isinstance(off, ast.Constant) and off.value == 0
+                    good_off = d["E_off"] == "0"
                 else:
-                    good_off = isinstance(off, ast.Call) and call_name(off) == want_off
-                good_src = want_src is None and u(src) in ("const.out_port()", "const.out(0)") or (want_src is not None and u(src) == want_src)
-                if good_off and good_src:
-                    ok = True
+                    # the offset is asked of the very operation the node was created with
+                    mk = tmatch(ast.parse(d["E_node"], mode="eval").body, T("self.hugr.add_node(E_op, ANY_, ANY_)")) or \
+                        tmatch(ast.parse(d["E_node"], mode="eval").body, T("self.hugr.add_node(E_op, ANY_)"))
+                    good_off = mk is not None and d["E_off"] == f"{mk['E_op']}.{want_off}()"
+                if want_src is None:
+                    # the constant node: the argument itself, or the node add_const made for a value argument
+                    good_src = src in (f"{sp}.out_port()", f"{sp}.out(0)") or (src.startswith("self.add_const(") and src.endswith((".out_port()", ".out(0)")))
+                else:
+                    good_src = src == want_src.replace("func", sp)
+                good = good or (good_off and good_src)
+            ok = ok and good and len(links) == 1
         ctx.check(ok, rule, f"hugr.build.dfg.DfBase.{mname}: static edge", file, m.lineno,
                   f"DfBase.{mname} must link output 0 of the static node to the operation's static input port "
-                  f"({'inp(call_op._function_port_offset())' if want_off != '0' else 'inp(0)'})", links[0] if links else m,
-                  found=found, detail=found)
+                  f"({'inp(call_op._function_port_offset())' if want_off != '0' else 'inp(0)'})", m,
+                  found=found[:300], detail=found[:200])
 
 
 def run(ctx) -> None:
